@@ -95,10 +95,11 @@ Definition check_hash_type (c : ctx) (shf : N) : bool :=
     let t1 := if bip143 then N.lxor t0 sh_forkid else t0 in
     if bip143 && (N.land shf sh_forkid =? 0)%N then false
     else if negb (flag_has t1 sh_forkid) then
-      negb ((t1 <? sh_all)%N || (sh_single <? t1)%N)
+      if (t1 <? sh_all)%N || (sh_single <? t1)%N then false
+      else if has_flag c F_FORKID && negb (flag_has shf sh_forkid) then false   (* must use the fork id digest *)
+      else true
     else if (t1 <? 65)%N || (67 <? t1)%N then false
     else if negb (has_flag c F_FORKID) && flag_has shf sh_forkid then false
-    else if has_flag c F_FORKID && negb (flag_has shf sh_forkid) then false
     else true.
 
 (** checkPubKeyEncoding *)
@@ -218,6 +219,10 @@ Definition checksig_code_ops (c : ctx) (s : st) (full_sig : bytes) (shf : N) : l
 Definition finish_verify (vf : bool) (o : outcome) : outcome :=
   if vf then match o with OOk s' => verify_top s' | other => other end else o.
 
+(** checkSigFailed: false is pushed, unless NULLFAIL is set and the signature (hash type included) is not empty *)
+Definition checksig_failed (c : ctx) (s1 : st) (full : bytes) : outcome :=
+  if has_flag c F_NULLFAIL && Nat.ltb 0 (length full) then OErr else push_bool s1 false.
+
 (** [None] = the oracle has no answer for a Verify query *)
 Definition checksig_run (orc : sig_oracle) (t : tx) (in_idx : N) (c : ctx) (s : st) (idx : nat) (vf : bool)
   : option outcome :=
@@ -240,14 +245,12 @@ Definition checksig_run (orc : sig_oracle) (t : tx) (in_idx : N) (c : ctx) (s : 
               | Some up =>
                   match sighash_for t in_idx up shf with
                   | SOk h =>
-                      if negb (orc_parse_pub orc pk) then Some (push_bool s1 false) else
+                      if negb (orc_parse_pub orc pk) then Some (checksig_failed c s1 full) else
                       let der := uses_der_parser c in
-                      if negb (orc_parse_sig orc der sig) then Some (push_bool s1 false) else
+                      if negb (orc_parse_sig orc der sig) then Some (checksig_failed c s1 full) else
                       match orc_verify orc pk h sig der with
                       | None => None
-                      | Some ok =>
-                          if negb ok && has_flag c F_NULLFAIL && Nat.ltb 0 (length sig) then Some OErr
-                          else Some (push_bool s1 ok)
+                      | Some ok => if ok then Some (push_bool s1 true) else Some (checksig_failed c s1 full)
                       end
                   | SigHash.SErr _ => Some OErr                                (* PushBool(false); return err *)
                   | SigHash.SPanic | SFatal | SFuel => Some OPanic
@@ -315,13 +318,14 @@ Fixpoint ms_loop (fuel : nat) (m : memo) (pubKeyIdx numPubKeys signatureIdx numS
       match nthZ sigs signatureIdx, nthZ pks pubKeyIdx, nthZ m signatureIdx with
       | Some rawSig, Some pubKey, Some parsed =>
           match split_last rawSig with
-          | None => ms_loop f m pubKeyIdx numPubKeys signatureIdx numSignatures      (* empty: continue *)
+          | None =>                                                    (* empty: the key is still checked, then continue *)
+              if negb (check_pubkey_enc c pubKey) then LErr
+              else ms_loop f m pubKeyIdx numPubKeys signatureIdx numSignatures
           | Some (sig, hb) =>
               let shf := b2n hb in
               let der := uses_der_parser c in
               (* everything after the signature has been parsed successfully *)
               let with_parsed (m' : memo) : loop_res :=
-                if negb (check_pubkey_enc c pubKey) then LErr else
                 if negb (orc_parse_pub orc pubKey) then ms_loop f m' pubKeyIdx numPubKeys signatureIdx numSignatures else
                 match unparse script with
                 | None => LPushFalse
@@ -337,20 +341,25 @@ Fixpoint ms_loop (fuel : nat) (m : memo) (pubKeyIdx numPubKeys signatureIdx numS
                     | SigHash.SPanic | SFatal | SFuel => LPanic
                     end
                 end in
-              match parsed with
-              | None =>
-                  if negb (check_hash_type c shf) then LErr else
-                  match check_sig_enc c sig with
-                  | EncErr => LErr
-                  | EncPanic => LPanic
-                  | EncOk =>
+              (* the signature encoding (only once), then the key encoding, then parsing (only once) *)
+              match (match parsed with
+                     | None =>
+                         if negb (check_hash_type c shf) then EncErr else check_sig_enc c sig
+                     | Some _ => EncOk
+                     end) with
+              | EncErr => LErr
+              | EncPanic => LPanic
+              | EncOk =>
+                  if negb (check_pubkey_enc c pubKey) then LErr else
+                  match parsed with
+                  | None =>
                       let ok := orc_parse_sig orc der sig in
                       let m' := upd m (Z.to_nat signatureIdx) (Some ok) in
                       if ok then with_parsed m'
                       else ms_loop f m' pubKeyIdx numPubKeys signatureIdx numSignatures
+                  | Some false => ms_loop f m pubKeyIdx numPubKeys signatureIdx numSignatures
+                  | Some true => with_parsed m
                   end
-              | Some false => ms_loop f m pubKeyIdx numPubKeys signatureIdx numSignatures
-              | Some true => with_parsed m
               end
           end
       | _, _, _ => LPanic
